@@ -123,6 +123,11 @@ def run_impl(sc):
         return d13_probe()
     if sc.get("probe") == "d21":
         return d21_probe()
+    if sc.get("probe") == "copy_attach":
+        from . import c12
+        return c12.copy_attach_probe(sc)
+    if sc.get("probe") == "mixin_parent":
+        return mixin_parent_probe()
     alone = eng.run_impl(sc)
     try:
         eng.BETWEEN = make_between(sc, sc["kind"], sc["seed"])
@@ -145,6 +150,48 @@ def run_impl(sc):
     def strip(o):
         return [{k: v for k, v in x.items() if k in ("out", "field", "allowed", "log")} for x in o]
     return {"obs": inter, "same": strip(alone) == strip(inter)}
+
+
+def mixin_parent_probe():
+    """a MachineMixin model class whose parent model class (another machine class) was instantiated earlier:
+    each model class gets the machine class it names"""
+    import statemachine.registry as _reg
+    from statemachine import State, StateMachine
+    from statemachine.mixins import MachineMixin
+    _reg._initialized = True        # no Django project in this process: skip its module autodiscovery
+    with warnings.catch_warnings():
+        warnings.simplefilter("ignore")
+
+        class DraftFlow(StateMachine):
+            draft = State(initial=True)
+            sent = State()
+            send_it = draft.to(sent)
+
+        class ReviewFlow(StateMachine):
+            waiting = State(initial=True)
+            approved = State()
+            approve = waiting.to(approved)
+        DraftFlow.__module__ = ReviewFlow.__module__ = "scn_probe"
+        _reg.register(DraftFlow)
+        _reg.register(ReviewFlow)
+
+        class DraftModel(MachineMixin):
+            state_machine_name = "scn_probe.DraftFlow"
+
+            def __init__(self):
+                self.state = None
+                super().__init__()
+
+        class ReviewModel(DraftModel):
+            state_machine_name = "scn_probe.ReviewFlow"
+        first = DraftModel()
+        second = ReviewModel()
+        third = DraftModel()
+        bad = []
+        got = [type(m.statemachine).__name__ for m in (first, second, third)]
+        if got != ["DraftFlow", "ReviewFlow", "DraftFlow"]:
+            bad.append(got)
+    return {"probe": "mixin_parent", "bad": bad}
 
 
 def d21_probe():
@@ -212,6 +259,10 @@ def coq_case(sc, obs):
 
 
 def render_source(sc):
+    if sc.get("probe") == "copy_attach":
+        return "# probe: a listener attached to only one of a machine and its shallow / deep copy (see harness/c12.py)\n"
+    if sc.get("probe") == "mixin_parent":
+        return "# probe: MachineMixin model classes DraftModel (DraftFlow) and ReviewModel(DraftModel) (ReviewFlow)\n"
     if sc.get("probe") == "d21":
         return ("# probe: class Base declares finish = done.from_.any(cond=...); class Sub(Base): pass; class Sub2(Base): pass\n"
                 "# the (source, target, events) list of Base before / after, and of Sub2\n")
@@ -242,6 +293,10 @@ def generate(rng, tier):
         scs.append(sc)
     scs.append({"probe": "d13"})
     scs.append({"probe": "d21"})
+    scs.append({"probe": "mixin_parent"})
+    for k in range(12):
+        scs.append({"probe": "copy_attach", "seed": rng.randrange(10 ** 6), "first": ["copy", "deepcopy"][k % 2],
+                    "side": ["copy", "original"][(k // 2) % 2]})
     return scs, [("seeded random machines, each run alone and with unrelated activity between every two operations "
                   "(another instance of the class with other listeners incl. coroutine ones / another class with "
                   "the same class and method names / a subclass adding callbacks / an unrelated class / an unrelated class "
